@@ -28,7 +28,7 @@ CONSTANTS
   PKinds <- KSentCmt
   MaxEdits = 4
   NCmtCls = 7
-  NCppForms = 27
+  NCppForms = 29
   NGarb = 7
   DirectiveCls <- DirCls
 INVARIANT WellNested
